@@ -52,12 +52,18 @@ def methods_of(ctx, ty):
     return {p[len(pre):]: b for p, b in ctx.fb.bodies.items() if p.startswith(pre) and b.kind == "AssocFn" and "::" not in p[len(pre):]}
 
 
-def peel_after(t):
+def peel_after(t, se=None, bb=None):
     while t[0] == "after":
         t = t[3]
-    # a location argument naming a parameter's own local is that parameter
+    # a location argument naming a parameter's own local is that parameter; any other local
+    # (e.g. the parameter of a spliced helper) stands for the value it holds
     if t[0] == "local":
-        return ("param", t[1])
+        if se is None or t[1] <= se.body.arg_count:
+            return ("param", t[1])
+        v = strip(se.read(se.in_state.get(bb, {}), t))
+        while v[0] == "after":
+            v = strip(v[3])
+        return v
     return t
 
 
@@ -107,7 +113,7 @@ def reader_rule(ctx, rep, half, name, b, expected_reads, helper_names, allow_sec
     for bb, i in se.term_info.items():
         if i.get("k") == "call" and i["name"] != "std::io::Read::read_exact":
             for a in i.get("locargs", i["args"]):
-                if peel_after(strip(a)) == ("param", 2):
+                if peel_after(strip(a), se, bb) == ("param", 2):
                     esc.append(i["name"])
     rep.check(not esc, "reader", fn, "reader-not-passed-on", "the reader is only used by read_exact", "reader is also handed to %s" % esc, body.loc())
     reads = [bb for bb, t in io_calls if t.get("callee") == "std::io::Read::read_exact"]
@@ -119,7 +125,7 @@ def reader_rule(ctx, rep, half, name, b, expected_reads, helper_names, allow_sec
     for k, (bb, want_len) in enumerate(zip(reads, expected_reads)):
         info = se.term_info[bb]
         la = info["locargs"]
-        rd_ok = peel_after(strip(la[0])) == ("param", 2)
+        rd_ok = peel_after(strip(la[0]), se, bb) == ("param", 2)
         site = info["site"]
         buf_old = se.call_old.get((site, 1))
         bl = la[1][1] if la[1][0] == "ref" else None
@@ -177,7 +183,7 @@ def reader_rule(ctx, rep, half, name, b, expected_reads, helper_names, allow_sec
         bb, i = sorted(helper_calls)[0]
         a = i["args"]
         first = se.term_info[reads[0]]["term"]
-        v = a[1]
+        v = util.unwrap_try(se, a[1])
         good = a[0] == ("mutref", 0) and v[0] == "after" and strip(v[1]) == strip(first) and v[2] == 1
         desc = "%s(self, bytes just read)" % i["name"].split("::")[-1]
     rep.check(good, "reader", fn, "helper-gets-read-bytes", desc, "the typed helper does not receive exactly the buffer filled by read_exact: " + desc, body.loc())
